@@ -46,7 +46,7 @@ PROBES = [
     "finalize_after_subframe_chunk", "utt_after_too_short", "utt_after_other_dtype", "refusal_at_first",
     "refusal_in_middle", "refusal_before_finalize", "finalize_x3", "full_after_stream", "stream_after_full",
     "empty_chunk_starts_utterance", "refusal_other_dtype", "log_floor_changed_between_utterances",
-    "utterance_after_poisoned_samples",
+    "utterance_after_poisoned_samples", "co_tenant_between_calls",
 ]
 FAULT_KINDS = ["refused_compute_full", "refused_frame_by_frame", "extra_finalize", "empty_delivery"]
 
@@ -108,7 +108,9 @@ def generate(rng, tier, k):
                     cs = n // 300 + 1
                 utt["cs"] = cs
         utts.append(utt)
-    return {"cfg": cfg, "utterances": utts, "discarded_configs": discarded}
+    return {"cfg": cfg, "utterances": utts, "discarded_configs": discarded,
+            # a second live computer of the same configuration, stepped between this one's calls (seed of its schedule)
+            "co_tenant": rng.randrange(1, 1 << 30) if rng.random() < 0.12 else None}
 
 
 def _sha(a):
@@ -195,6 +197,9 @@ def _execute(scn, keep_trace=False):
             return False
         return True
 
+    tenant = None
+    if scn.get("co_tenant"):
+        tenant = source.CoTenant(configs.build(cfg), scn["co_tenant"], L, "float64")
     ok = check_started("after construction")
     for ui, u in enumerate(utts):
         if not ok:
@@ -238,6 +243,8 @@ def _execute(scn, keep_trace=False):
                             break
                 if not ok:
                     break
+                if tenant is not None and tenant.step():
+                    res.probe("co_tenant_between_calls")
                 ch = source.deliver(x, a, ln, mem)
                 if ln == 0:
                     res.fault("empty_delivery")
@@ -278,6 +285,8 @@ def _execute(scn, keep_trace=False):
                 break
             if lens and 0 < n < L // 2 + 1:
                 res.probe("finalize_after_subframe_chunk")
+            if tenant is not None:
+                tenant.step()
             try:
                 fin = c.finalize()
             except Exception as e:
